@@ -17,7 +17,7 @@
 From Coq Require Import List NArith ZArith Bool Sorting.Sorted.
 From Oxia.KeyOrder Require Import Model.
 From Oxia.Db Require Import Types Bytes Escape Keys Kv Sessions Indexes Write Read KvProofs Proofs_C12 IndexReads
-     C15_Layout C15_Inv C15_Reads Proofs_C15.
+     C15_Layout C15_Inv C15_Reads Proofs_C15 C15_Fresh.
 Import ListNotations.
 
 (* The key layout determines (index name, secondary key, primary key) ... *)
@@ -60,6 +60,14 @@ Theorem c15_index_mirror : forall cfg ops,
      exists pk si, k = index_key pk si /\ declares m pk si /\ si_ok si /\ pk_ok pk).
 Proof. exact index_mirror. Qed.
 Print Assumptions c15_index_mirror.
+
+(* The freshness side condition inside [run_ok] is discharged by C16's generate_key_fresh (code as repaired):
+   every history whose write requests are admissible ([c15_request]) is a [run_ok] history, so all theorems of
+   this file hold for all such histories without any condition on sequence puts. *)
+Theorem c15_admissible_histories_suffice : forall cfg ops,
+  Forall op_adm ops -> run_ok cfg init_state ops.
+Proof. exact run_adm_ok. Qed.
+Print Assumptions c15_admissible_histories_suffice.
 
 (* the invariant behind it is preserved by every admissible request from ANY state that satisfies it *)
 Theorem c15_mirror_preserved : forall cfg st req offset ts,
